@@ -5,7 +5,7 @@
    with a negative dominant eigenvalue).  Over R. *)
 From Coq Require Import Reals Lra Field Psatz Arith Lia Bool List Setoid Morphisms.
 From QV Require Import CRing Sums Quat Mat QMat CRingR FOps FOpsR.
-From QVT Require Import CauchySchwarz Reflector HouseholderR.
+From QVT Require Import CauchySchwarz Reflector Norms HouseholderR SchurThm.
 From QVM Require Import Householder PowerIter.
 Import ListNotations.
 Local Open Scope R_scope.
@@ -127,3 +127,86 @@ Proof.
   induction k as [|k IH]; cbn [prodS]; [lra|]. apply Rmult_lt_0_compat; [exact IH|apply Hs].
 Qed.
 End Conv.
+
+(* the Rayleigh quotient in the eigenbasis and its convergence rate *)
+Section Ray.
+Variables (n : nat) (A V : qmat RR) (lam : nat -> R).
+Hypothesis HV : unitary n V.
+Hypothesis HA : meq n n A (qmm n (qmm n V (qdiag (fun i => @qreal RR (lam i)))) (qherm V)).
+Notation Lam := (qdiag (fun i => @qreal RR (lam i))).
+Notation crd := (coords n V).
+Definition wt (x : qmat RR) (i : nat) : R := N (crd x i O).
+(* x^H A x = sum lambda_i |c_i|^2  and  x^H x = sum |c_i|^2  in the eigenbasis *)
+Lemma quad_form (x : qmat RR) : qmm n (qherm x) (qmm n A x) O O = @qreal RR (@sumR RR n (fun i => lam i * wt x i)).
+Proof.
+  destruct HV as [V1 V2].
+  assert (E : meq 1 1 (qmm n (qherm x) (qmm n A x)) (qmm n (qherm (crd x)) (qmm n Lam (crd x)))).
+  { unfold coords. rewrite (qherm_mm_meq RR n n 1 (qherm V) x), (qherm_herm RR n n V).
+    rewrite (qmm_assoc RR 1 n n 1 (qherm x) V (qmm n Lam (qmm n (qherm V) x))).
+    rewrite <- (qmm_assoc RR n n n 1 V Lam (qmm n (qherm V) x)).
+    rewrite <- (qmm_assoc RR n n n 1 (qmm n V Lam) (qherm V) x), <- HA. reflexivity. }
+  rewrite (E O O ltac:(lia) ltac:(lia)). unfold qmm at 1. unfold qherm at 1.
+  rewrite (sumQ_ext RR n _ (fun i => @qreal RR (lam i * wt x i))).
+  - rewrite sumQ_real, <- sumR_rsum. reflexivity.
+  - intros i Hi. rewrite (qmm_diag_l RR n 1 (fun i => @qreal RR (lam i)) (crd x) i O Hi ltac:(lia)). unfold wt, N, qnorm2.
+    apply qeq; qcomp; rr; ring.
+Qed.
+Lemma norm_form (x : qmat RR) : qmm n (qherm x) x O O = @qreal RR (@sumR RR n (fun i => wt x i)).
+Proof.
+  destruct HV as [V1 V2].
+  assert (E : meq 1 1 (qmm n (qherm x) x) (qmm n (qherm (crd x)) (crd x))).
+  { unfold coords. rewrite (qherm_mm_meq RR n n 1 (qherm V) x), (qherm_herm RR n n V).
+    rewrite (qmm_assoc RR 1 n n 1 (qherm x) V (qmm n (qherm V) x)).
+    rewrite <- (qmm_assoc RR n n n 1 V (qherm V) x), V2, (qmm_id_l RR n 1 x). reflexivity. }
+  rewrite (E O O ltac:(lia) ltac:(lia)). unfold qmm, qherm.
+  rewrite (sumQ_ext RR n _ (fun i => @qreal RR (wt x i))); [rewrite sumQ_real, <- sumR_rsum; reflexivity|].
+  intros i _. unfold wt, N, qnorm2. apply qeq; qcomp; rr; ring.
+Qed.
+(* distance of the Rayleigh numerator from lambda_d times the denominator, bounded by the non-dominant weight *)
+Definition tailw (x : qmat RR) (d : nat) : R := @sumR RR n (fun i => if Nat.eqb i d then 0 else wt x i).
+Lemma wt_nonneg x i : 0 <= wt x i. Proof. apply N_nonneg. Qed.
+Lemma gap_bound (w : nat -> R) d m : (forall i, 0 <= w i) -> (forall i, (i < m)%nat -> Rabs (lam i) <= Rabs (lam d)) ->
+  Rabs (@sumR RR m (fun i => lam i * w i) - lam d * @sumR RR m w) <= 2 * Rabs (lam d) * @sumR RR m (fun i => if Nat.eqb i d then 0 else w i).
+Proof.
+  intros Hw Hl. induction m as [|m IH]; cbn [sumR]; rr.
+  - rewrite Rminus_0_l, Rmult_0_r, Ropp_0, Rabs_R0, Rmult_0_r. lra.
+  - specialize (IH ltac:(intros; apply Hl; lia)).
+    replace (@sumR RR m (fun i => lam i * w i) + lam m * w m - lam d * (@sumR RR m w + w m)) with
+            ((@sumR RR m (fun i => lam i * w i) - lam d * @sumR RR m w) + (lam m - lam d) * w m) by ring.
+    eapply Rle_trans; [apply Rabs_triang|]. rewrite Rabs_mult, (Rabs_right (w m)) by (apply Rle_ge, Hw).
+    destruct (Nat.eqb_spec m d) as [->|Hne].
+    + replace (lam d - lam d) with 0 by ring. rewrite Rabs_R0. rr in IH. lra.
+    + pose proof (Hl m ltac:(lia)) as H1. pose proof (Rabs_triang (lam m) (- lam d)) as H2. rewrite Rabs_Ropp in H2.
+      assert (H3 : Rabs (lam m - lam d) <= 2 * Rabs (lam d)) by (unfold Rminus; lra).
+      pose proof (Hw m). rr in IH. nra.
+Qed.
+(* after k normalised steps: |x_k^H A x_k - lambda_d x_k^H x_k| * |c_d(0)|^2 <= 2 |lambda_d| rho^(2k) * (non-dominant start weight) * x_k^H x_k *)
+Variable s : nat -> R.
+Theorem rayleigh_converges (x0 : qmat RR) k d rho : (d < n)%nat -> 0 <= rho ->
+  (forall i, (i < n)%nat -> i <> d -> Rabs (lam i) <= rho * Rabs (lam d)) -> rho <= 1 ->
+  let xk := pseq n A s x0 k in
+  Rabs (@sumR RR n (fun i => lam i * wt xk i) - lam d * @sumR RR n (wt xk)) * wt x0 d
+    <= 2 * Rabs (lam d) * rho ^ (2 * k) * tailw x0 d * @sumR RR n (wt xk).
+Proof.
+  intros Hd Hr Hl Hr1 xk.
+  assert (Hdom : forall i, (i < n)%nat -> Rabs (lam i) <= Rabs (lam d)).
+  { intros i Hi. destruct (Nat.eq_dec i d) as [->|Hne]; [lra|]. pose proof (Hl i Hi Hne). pose proof (Rabs_pos (lam d)). nra. }
+  pose proof (gap_bound (wt xk) d n (wt_nonneg xk) Hdom) as G.
+  (* tail(k) * w_d(0) <= rho^(2k) * w_d(k) * tail(0) *)
+  assert (T : tailw xk d * wt x0 d <= rho ^ (2 * k) * (wt xk d * tailw x0 d)).
+  { unfold tailw. change Rmult with (@cmul RR). rewrite <- (sumR_mul_r RR), <- (sumR_mul_l RR), <- (sumR_mul_l RR). rr.
+    apply sumRR_le. intros i Hi. destruct (Nat.eqb_spec i d) as [->|Hne].
+    - rewrite Rmult_0_l, Rmult_0_r, Rmult_0_r. lra.
+    - pose proof (nondominant_decay n A V lam HV HA s x0 k i d rho Hi Hd Hr (Hl i Hi Hne)) as D. unfold wt. fold xk in D. lra. }
+  assert (Wd : wt xk d <= @sumR RR n (wt xk)) by (apply (sumRR_ge_term n (wt xk) d (wt_nonneg xk) Hd)).
+  pose proof (wt_nonneg x0 d) as P0. pose proof (Rabs_pos (lam d)) as P1. pose proof (pow_le rho (2 * k) Hr) as P2.
+  assert (P3 : 0 <= tailw x0 d) by (unfold tailw; apply sumRR_nonneg; intros i; destruct (Nat.eqb i d); [lra|apply wt_nonneg]).
+  assert (P4 : 0 <= tailw xk d) by (unfold tailw; apply sumRR_nonneg; intros i; destruct (Nat.eqb i d); [lra|apply wt_nonneg]).
+  fold (tailw xk d) in G.
+  eapply Rle_trans; [apply Rmult_le_compat_r; [exact P0|exact G]|].
+  replace (2 * Rabs (lam d) * tailw xk d * wt x0 d) with (2 * Rabs (lam d) * (tailw xk d * wt x0 d)) by ring.
+  eapply Rle_trans; [apply Rmult_le_compat_l; [lra|exact T]|].
+  assert (Q : rho ^ (2 * k) * (wt xk d * tailw x0 d) <= rho ^ (2 * k) * (@sumR RR n (wt xk) * tailw x0 d)) by (apply Rmult_le_compat_l; [exact P2|apply Rmult_le_compat_r; assumption]).
+  nra.
+Qed.
+End Ray.
